@@ -415,7 +415,8 @@ pub fn worker_main(ctx: &Ctx, a: WorkerArgs) -> i32 {
                 let start = if first_base { a.resume_sub } else { 0 };
                 first_base = false;
                 for (s, input) in inputs.iter().enumerate().skip(start as usize) {
-                    if sub_sample > 1 && s != 0 && ((s as u64 + b) % sub_sample != 0 || input.operator == "model:tilemap_extent_i32" || input.operator == "model:tileset_strip_height_u32" || input.operator == "model:palette_colliding_keys") {
+                    // (deep group nests always run: stack depth per call differs most in the unoptimised build)
+                    if sub_sample > 1 && s != 0 && input.operator != "model:nested_groups" && ((s as u64 + b) % sub_sample != 0 || input.operator == "model:tilemap_extent_i32" || input.operator == "model:tileset_strip_height_u32" || input.operator == "model:palette_colliding_keys") {
                         // (the unoptimised build needs minutes per rendering of a 2^31-pixel tilemap extent)
                         continue;
                     }
